@@ -42,6 +42,15 @@ ALPHABET = [
 ]
 
 
+# pathway tags are arbitrary hashable labels: strings (also the empty one) and integers counted from zero are what users write
+TAGPOOL = ["t0", "t1", "t2", 0, 1, ""]
+
+
+def pick_tag(rng, n=len(TAGPOOL)):
+    t = TAGPOOL[int(rng.integers(0, n))]
+    return t
+
+
 def gen_cases(tier, rng):
     cases = []
     nr = 260 if tier == "quick" else 2500
@@ -59,9 +68,9 @@ def gen_cases(tier, rng):
                 else:
                     dt = str(rng.choice(DTYPES[lvl]))
                 if lvl == "pathways":
-                    tag = None if rng.random() < 0.07 else "t%d" % int(rng.integers(0, 5))
+                    tag = None if rng.random() < 0.07 else pick_tag(rng)
                 else:
-                    tag = "t%d" % int(rng.integers(0, 5)) if rng.random() < 0.07 else None
+                    tag = pick_tag(rng) if rng.random() < 0.07 else None
                 if rng.random() < 0.1:
                     lvl_arg = None        # resolution=None: use the storage's own
                     ops.append(["add", lvl_arg, dt, tag])
@@ -85,7 +94,7 @@ def gen_cases(tier, rng):
             u = rng.random()
             if u < 0.75:
                 dt = str(rng.choice(DTYPES[lvl]))
-                tag = ("t%d" % int(rng.integers(0, 3))) if lvl == "pathways" else None
+                tag = pick_tag(rng, 6 if len(cases) % 2 else 3) if lvl == "pathways" else None
                 ops.append(["add", lvl, dt, tag])
             elif u < 0.9:
                 ops.append(["spectrum", str(rng.choice([TOTAL, SIG_REPH, SIG_NONR]))])
